@@ -6,6 +6,7 @@ package main
 import (
 	"encoding/binary"
 	"fmt"
+	"net"
 	"strings"
 	"time"
 
@@ -50,6 +51,18 @@ func scenario(p params, bounds []int) *vexp.Scenario {
 		Setup:  func(x *vexp.X) { vsys.CoarseSetupSends() },
 		Body: func(x *vexp.X) {
 			nw := vnet.Reset()
+			if p.fault == "short-reads" || p.fault == "reverse-bad-frame" {
+				// no connection fault: but what a Read returns is the environment's choice (1, 3, half, all-but-one, all bytes)
+				nw.ChunkOptions = func(c *vnet.VConn, avail int) []int {
+					opts := []int{avail}
+					for _, k := range []int{1, 3, avail / 2, avail - 1} {
+						if k >= 1 && k < avail && k != opts[len(opts)-1] {
+							opts = append(opts, k)
+						}
+					}
+					return opts
+				}
+			}
 			switch p.fault {
 			case "cut":
 				nw.CutAt = func(addr string, idx int) int {
@@ -74,9 +87,76 @@ func scenario(p params, bounds []int) *vexp.Scenario {
 				return w
 			}
 			wa := mk(addrA)
-			wb := mk(addrB)
+			var wb *vsys.World
 			var atB []string
+			if p.fault == "reverse-bad-frame" {
+				// no system on B: a scripted peer speaks the protocol by hand. After the first frame of the first connection it writes a
+				// frame header announcing more than the limit BACK on that (dialled) connection, and keeps serving new connections.
+				ta, _ := net.ResolveTCPAddr("tcp", addrB)
+				ln, err := vnet.ListenTCP("tcp", ta)
+				if err != nil {
+					x.Fail("harness", "listen: %v", err)
+					return
+				}
+				readFull := func(c net.Conn, n int) ([]byte, bool) {
+					buf := make([]byte, n)
+					for got := 0; got < n; {
+						k, err := c.Read(buf[got:])
+						if err != nil {
+							return nil, false
+						}
+						got += k
+					}
+					return buf, true
+				}
+				conns := 0
+				vrt.GoDaemon("scripted-peer-accept", func() {
+					for {
+						c, err := ln.Accept()
+						if err != nil {
+							return
+						}
+						conns++
+						first := conns == 1
+						vrt.GoDaemon(fmt.Sprintf("scripted-peer-conn-%d", conns), func() {
+							l, ok := readFull(c, 4) // the dialler's handshake: a length-prefixed address
+							if !ok {
+								return
+							}
+							if _, ok = readFull(c, int(binary.BigEndian.Uint32(l))); !ok {
+								return
+							}
+							hs := messages.NewWriter()
+							hs.WriteFrom(addrB)
+							c.Write(hs.Bytes())
+							for n := 0; ; n++ {
+								l, ok := readFull(c, 4)
+								if !ok {
+									return
+								}
+								body, ok := readFull(c, int(binary.BigEndian.Uint32(l)))
+								if !ok {
+									return
+								}
+								if _, _, _, _, _, m, err := serialize.DecodeEnvelopWithRemoting(nil, body); err == nil {
+									if cm, ok := m.(*vcodec.CustomMsg); ok {
+										atB = append(atB, cm.T)
+									}
+								}
+								if first && n == 0 {
+									c.Write([]byte{0x7f, 0xff, 0xff, 0xff}) // an invalid length, in the reverse direction
+								}
+							}
+						})
+					}
+				})
+			} else {
+				wb = mk(addrB)
+			}
 			spawnEcho := func(w *vsys.World) {
+				if w == nil {
+					return
+				}
 				w.SpawnRoot(&vsys.Script{Name: "echo", OnOther: func(a *vsys.Act, ctx vivid.ActorContext, m any) {
 					if cm, ok := m.(*vcodec.CustomMsg); ok {
 						s := cm.T
@@ -126,6 +206,14 @@ func scenario(p params, bounds []int) *vexp.Scenario {
 			}
 			s1 := wa.Ref("/s1")
 			switch p.fault {
+			case "reverse-bad-frame":
+				wa.Sys.Tell(s1, vsys.Msg{ID: "go"})
+				settle()
+				wa.Sys.Tell(s1, vsys.Msg{ID: "go"})
+				settle()
+			case "short-reads":
+				wa.Sys.Tell(s1, vsys.Msg{ID: "go"})
+				settle()
 			case "fin":
 				wa.Sys.Tell(s1, vsys.Msg{ID: "go"})
 				settle()
@@ -287,7 +375,7 @@ func scenario(p params, bounds []int) *vexp.Scenario {
 					x.Fail("dead-letter-means-not-delivered", "%s was reported as a dead letter on the sending side but B received it", s)
 				}
 			}
-			if p.fault == "idle" {
+			if p.fault == "idle" || p.fault == "short-reads" {
 				for _, s := range sent {
 					if !seen[s] || dead[s] > 0 {
 						x.Fail("no-fault-no-loss", "no fault was injected, yet %s (retry limit %d) was not delivered (received %v, dead letters %v, net %v)", s, p.limit, atB, dead, nw.Log)
@@ -295,7 +383,7 @@ func scenario(p params, bounds []int) *vexp.Scenario {
 				}
 			}
 			switch p.fault {
-			case "cut", "refuse", "restart", "fin":
+			case "cut", "refuse", "restart", "fin", "reverse-bad-frame":
 				// the last burst was sent while the peer was reachable
 				last := sent[len(sent)-p.n:]
 				for li, s := range last {
@@ -344,7 +432,9 @@ func scenario(p params, bounds []int) *vexp.Scenario {
 			x.Logf("sent %v received %v dead %v parked %v net %v", sent, atB, dead, parked, nw.Log)
 			vrt.Freeze()
 			wa.Sys.Stop()
-			wb.Sys.Stop()
+			if wb != nil {
+				wb.Sys.Stop()
+			}
 			settle()
 		},
 	}
@@ -382,6 +472,10 @@ func build(tier string) []*vexp.Scenario {
 		for _, limit := range []int{0, 1, 3} {
 			out = append(out, scenario(params{"restart", k, -1, limit, 2}, b))
 		}
+	}
+	out = append(out, scenario(params{"short-reads", 0, -1, 1, 3}, []int{0, 1}))
+	for _, limit := range []int{1, 3} {
+		out = append(out, scenario(params{"reverse-bad-frame", 0, -1, limit, 2}, []int{0}))
 	}
 	for _, limit := range []int{0, 1, 3} {
 		out = append(out, scenario(params{"idle", 0, -1, limit, 2}, []int{0, 1}))
